@@ -209,7 +209,9 @@ fn c07(rng: &mut Rng, idx: usize) -> Case {
     let src: u32 = if rebuilt { 5 } else { 0 };
     if path < 3 {
         long_names = f.terms.iter().any(|t| t.1.len() > 255) || f.recs[0].iter().any(|r| r.1.len() > 255);
-        facts_to_prog(rng, &f, &ProgOpts { shuffle: true, failing_permille: 0, build_defaults: true, slot: 0 }, &mut c);
+        // (with some rejected calls among the accepted ones: nothing of them reaches the file)
+        let failing_permille = if rng.chance(1, 3) { 120 } else { 0 };
+        facts_to_prog(rng, &f, &ProgOpts { shuffle: true, failing_permille, build_defaults: true, slot: 0 }, &mut c);
     } else {
         // the file formats cannot carry more than 255 bytes of a term / gene name
         for t in f.terms.iter_mut() {
